@@ -5,6 +5,9 @@ ROOT = os.path.dirname(os.path.dirname(os.path.abspath(__file__)))
 ALL = ['C%02d' % i for i in range(1, 21)]
 
 CHECKS = {
+ 'C01': dict(level='exploration', engine='enum-vspec', technique='bounded-exhaustive enumeration of specification-valid setups x packet sequences (independent bit-level synthesiser), each decoded by the real library and by a specification-level reference decoder; differential oracle',
+   text='Streams are written bit by bit from the specification by an independent synthesiser (never by the bundled encoder) over six enumerated suites: all 36 block-size pairs x all short/long mode sequences; all complete prefix codes <=5 entries in every order with sparse/ordered/single-entry variants x lookup types x dimensions x value formats, 32-bit-deep and 300/1000-entry books; floor 1 layouts x multipliers x X orders x Y vectors; floor 0 orders x bark maps x books; residue types 0/1/2 x begin/end cases x partition sizes x classifications x cascade masks x do-not-decode patterns; submaps, channel multiplexing, coupling lists, 64 modes, 255 channels. For each stream the per-packet sample count must be exact and every sample within a data-scaled single-precision budget of a double-precision reference decoder written from the specification text.',
+   note='reference decoder pylib/vspec.py written from doc/*.tex (dB table parsed from the spec); IMDCT normalisation fixed from the de-facto definition; truncated packets, partition sizes that are not multiples of the book dimension and non-finite floor-0 curves are outside the judged alphabet (counted in evidence)', ref='C01'),
  'C07': dict(level='model_checking', engine='seq-bfs', technique='explicit-state BFS over real OggVorbis_File states (history replay + canonical state hash), every transition executed on the implementation',
    text='Every history over the seek/read alphabet is explored breadth-first to a fix-point of the canonical state hash on 5 zoo files (single link, flushed pages, 3-link chain, chain with one-page and zero-sample links, non-zero initial granule); in every state the read-through is compared bit-for-bit with the linear decode at ov_pcm_tell. Bounded by the alphabets and files, exhaustive within them.',
    note='libogg binary, gcc -O2 build of the current tree; state hash drops dead buffer regions and bitrate statistics (argued in DESIGN 2.6, spot-validated by bisimulation probes)', ref='C07 / C08'),
@@ -43,6 +46,7 @@ def main():
         'hooks': {'guard': 'XIPH_VORBIS_VERIF', 'enable': 'no source hooks are needed: harnesses include internal headers, wrap the allocator at link time and drive the public callback table; the guard name is reserved only',
                   'baseline_off_cmd': 'cmake --build /repo/_build && ctest --test-dir /repo/_build -j8 --timeout 900', 'source_commits': [], 'add_only': True},
         'engines': [
+            {'name': 'enum-vspec', 'path': 'pylib/vspec.py + pylib/vsynth.py + harness/c01_dec.c', 'serves_properties': ['C01', 'C05', 'C02'], 'kind_free_text': 'specification-level stream synthesiser, strict parser and reference decoder; enumerated streams executed on the real packet-level decoder'},
             {'name': 'enum-chainx', 'path': 'checks/c09.py + harness/chainx.c', 'serves_properties': ['C09', 'C10'], 'kind_free_text': 'bounded-exhaustive enumeration of chains / delivery schedules executed on the real vorbisfile, differential oracle'},
             {'name': 'seq-bfs', 'path': 'pylib/seekgraph.py + harness/vfx.c', 'serves_properties': ['C07', 'C08', 'C20'], 'kind_free_text': 'explicit-state breadth-first search over the real OggVorbis_File; state = replayed history, identified by canonical hash'},
         ],
